@@ -2,6 +2,9 @@ package c34
 
 import (
 	"bytes"
+	"encoding/hex"
+	"os"
+	"strings"
 
 	"verifharness/sym"
 
@@ -9,11 +12,55 @@ import (
 	"github.com/blinklabs-io/gouroboros/ledger"
 	"github.com/blinklabs-io/gouroboros/ledger/byron"
 	"github.com/blinklabs-io/gouroboros/ledger/common"
+	"github.com/blinklabs-io/gouroboros/ledger/dijkstra"
 )
 
 func init() {
 	Registry["ByronProof"] = ByronProof
 	Registry["ByronBlock"] = ByronBlock
+	Registry["DijkstraBlock"] = DijkstraBlock
+}
+
+// DijkstraBlock: the Dijkstra block constructor (validation enabled, the default) fails
+// unless the header's body hash is the hash of the body's wire bytes. Symbolically the body is
+// a block body object whose stored bytes are symbolic; natively it is the repository's real
+// Dijkstra block, and a body that does not match is the same body re-framed without changing
+// any decoded value (the transaction list 80 written as 9f ff), which only the bytes betray.
+func DijkstraBlock() {
+	genuine := sym.Bool("body_matches_header")
+	var data []byte
+	if sym.Symbolic() {
+		blk := &dijkstra.DijkstraBlock{BlockHeader: &dijkstra.DijkstraBlockHeader{}}
+		body := sym.Bytes("body", 5)
+		blk.BlockBody.SetCbor(body)
+		h := common.Blake2b256(sym.Bytes("header_body_hash", 32))
+		sym.Assume((h == common.Blake2b256Hash(body)) == genuine)
+		blk.BlockHeader.Body.BlockBodyHash = h
+		cbor.VerifDepositValue = blk
+		data = []byte{0x82, 0, 0}
+	} else {
+		raw, err := os.ReadFile("/repo/ledger/dijkstra/testdata/musashi_dijkstra_block.hex")
+		if err != nil {
+			panic(err)
+		}
+		data, err = hex.DecodeString(strings.TrimSpace(string(raw)))
+		if err != nil {
+			panic(err)
+		}
+		if !genuine {
+			body := []byte{0x84, 0xf6, 0x80, 0xf6, 0xf6}
+			i := bytes.LastIndex(data, body)
+			if i < 0 || i+len(body) != len(data) {
+				panic("the fixture's body is not 84 f6 80 f6 f6")
+			}
+			data = append(append([]byte{}, data[:i]...), 0x84, 0xf6, 0x9f, 0xff, 0xf6, 0xf6)
+		}
+	}
+	_, err := ledger.NewBlockFromCbor(ledger.BlockTypeDijkstra, data)
+	sym.ObsBool("accepted", err == nil)
+	sym.Reach("decided")
+	sym.Assert(!genuine || err == nil, "a Dijkstra block whose body bytes match its header's hash decodes")
+	sym.Assert(genuine || err != nil, "a Dijkstra block whose body bytes differ from what its header commits to fails to decode")
 }
 
 func h256(b []byte) []byte {
